@@ -142,6 +142,10 @@ def run(ctx):
             if len(cases) % 7 == 6:
                 opt = ad.optional_fields(name, vals)
                 omit = tuple(f for f in opt if rng.random() < 0.5) or tuple(opt[:1])
+                if "raw_data_1" in omit:
+                    omit += tuple(f for f in vals if f.startswith("raw_data_") and f not in omit)
+                if "params1" in omit and "params2" not in omit:
+                    omit += ("params2",)
                 if "talker_alias_data_1" in omit:       # one argument carried in several limbs: all or none
                     omit += tuple(f for f in vals if f.startswith("talker_alias_data_") and (f[18:].isdigit() or f[18:] == "t") and f not in omit)
             o = ad.build(name, vals, plain=len(cases) % 3 == 2, omit=omit)      # one case in three gives enumerations as plain integers
